@@ -28,6 +28,12 @@ def _report(rep, f, sym, slot, cases, it, name, rule='R-WINDOW', which=('R-WINDO
     seen = set()
     nob = 0
     if 'R-INDEX' not in which:
+        # the derived window is only meaningful if the index obligations hold (a negative slice bound wraps around in Python)
+        broken = [(text, line) for (text, ok, line) in it.obligations if not ok]
+        if broken and bad is None:
+            rep.fail(rule, f.module.rel, sym, slot + ':index', 'the window of %s is read off under index obligations that do not hold: cannot show that %s -- on those inputs the '
+                     'operator reads other samples than its window' % (name, broken[0][0]), broken[0][1])
+            return False
         return bad is None
     for (text, ok, line) in it.obligations:
         nob += 1
